@@ -1276,7 +1276,7 @@ class Executor(object):
                 return _ListMethod(base, a)
         if isinstance(base, dict):
             if a in ('get', 'keys', 'values', 'items', 'update', 'pop',
-                     'setdefault', 'copy', 'has_key'):
+                     'setdefault', 'copy', 'has_key', 'clear'):
                 return _DictMethod(base, a)
         if isinstance(base, str):
             return _StrMethod(base, a)
@@ -2312,6 +2312,9 @@ class _DictMethod(object):
             return self.d.setdefault(*args)
         if n == 'has_key':
             return args[0] in self.d
+        if n == 'clear':
+            self.d.clear()
+            return None
         raise VCError('dict.%s' % n)
 
 
